@@ -235,3 +235,8 @@ class MarginRule(cssrule.CSSRule):
     )
 
     wellformed = property(lambda self: bool(self.atkeyword))
+
+    valid = property(
+        lambda self: self.style.valid,
+        doc='``True`` when the style declaration is valid.',
+    )
